@@ -12,7 +12,9 @@ Inductive case :=
 | CShape (fixed quic : bool) (spec wire : list (N * N)) (sidlen : N) (obs : kshape)
 | CShapeQ (fixed : bool) (spec wire : list (N * N)) (sidlen : N)   (* QUIC: the UQUICConn hides its KeyShareKeys *)
 | CSelect (fixed : bool) (spec : list (N * N)) (idx : nat) (completed : bool)
-| CReads (quic : bool) (spec : list (N * N)) (reads : list (N * N)).
+| CReads (quic : bool) (spec : list (N * N)) (reads : list (N * N))
+(* Fingerprinter: key_share entries (group, length) of the captured hello, and (group, len(Data)) of the resulting spec *)
+| CImport (captured spec : list (N * N)).
 
 Definition rnd_c (i : N) : N := (i * 11 + 5) mod 253.
 Definition shares_of (spec : list (N * N)) : list kshare :=
@@ -46,4 +48,7 @@ Definition check (c : case) : bool :=
       | _ => false
       end
   | CReads quic spec reads => match_reads quic (shares_of spec) reads
+  | CImport captured spec =>
+      list_eqb (fun a b => (ks_group a =? ks_group b) && (lenN (ks_data a) =? lenN (ks_data b)))
+               (import_shares (shares_of captured)) (shares_of spec)
   end.
